@@ -764,6 +764,10 @@ class SysOfEqR:
             "n": st.integers(2, 8), "cplx": st.booleans(), "fmt": st.sampled_from(["csc", "csr", "dense"]),
             "npres": st.integers(1, 4), "give": st.sampled_from(["both", "free", "prescribed"]),
             "block": st.booleans(), "seedmask": st.sampled_from([[1, 1], [1, 0], [0, 1]]),
+            # dtype of the load b_f and of the prescribed values x_p relative to the matrix: as the matrix, or forced
+            # real / complex (mixed real and complex inputs)
+            "bf_dtype": st.sampled_from(["match", "match", "real", "cplx"]),
+            "xp_dtype": st.sampled_from(["match", "match", "real", "cplx"]),
         })
 
     @staticmethod
@@ -772,6 +776,10 @@ class SysOfEqR:
         kind, n = o["kind"], o["n"]
         A = make_matrix(kind, n, rng, o["cplx"], 30.0)
         cplx = np.iscomplexobj(A)
+        # real sparse matrix: keep rhs real (documented restriction of the inner LinSolve)
+        may_cplx = cplx or o["fmt"] == "dense"
+        c_bf = {"match": cplx, "real": False, "cplx": may_cplx}[o.get("bf_dtype", "match")]
+        c_xp = {"match": cplx, "real": False, "cplx": may_cplx}[o.get("xp_dtype", "match")]
         npres = min(o["npres"], n - 1)
         perm = rng.permutation(n)
         p, f = np.sort(perm[:npres]), np.sort(perm[npres:])
@@ -780,9 +788,8 @@ class SysOfEqR:
             A = A + (np.eye(n) * (np.abs(A).max() * 2) if kind in ("spd", "herm_pd", "general") else 0)
         Asp = A.copy() if o["fmt"] == "dense" else (sps.csc_matrix(A) if o["fmt"] == "csc" else sps.csr_matrix(A))
         k = (2,) if o["block"] else ()
-        # real sparse matrix: keep rhs real (documented restriction of the inner LinSolve)
-        bf = sig(rnd(rng, (len(f), *k), cplx), "bf")
-        xp = sig(rnd(rng, (len(p), *k), cplx), "xp")
+        bf = sig(rnd(rng, (len(f), *k), c_bf), "bf")
+        xp = sig(rnd(rng, (len(p), *k), c_xp), "xp")
         a = sig(Asp, "A")
         kw = {}
         if o["give"] in ("both", "free"):
@@ -793,9 +800,11 @@ class SysOfEqR:
         vA = class_direction(kind, n, rng, cplx)
         if o["fmt"] != "dense":
             vA = sps.csc_matrix(vA)
-        dirs = [vA, rnd(rng, bf.state.shape, cplx), rnd(rng, xp.state.shape, cplx)]
+        dirs = [vA, rnd(rng, bf.state.shape, c_bf), rnd(rng, xp.state.shape, c_xp)]
         lab = ["sysofeq", f"mat:{kind}", "complex" if cplx else "real", f"give:{o['give']}", f"fmt:{o['fmt']}",
                "block" if o["block"] else "vector", "seed:" + "".join(map(str, o["seedmask"]))]
+        if len({bool(cplx), bool(c_bf), bool(c_xp)}) > 1:
+            lab.append("mixed_real_complex_inputs")
         return Built(mod, mod.sig_in, mod.sig_out, dirs, default_seeds(o["seedmask"]), linear=False, h=2e-3,
                      labels=lab, tol=1e-6)
 
@@ -855,7 +864,7 @@ class EigDenseR:
         return st.fixed_dictionaries({
             "kind": st.sampled_from(["sym", "herm", "general_real", "general_cplx", "complex_sym"]),
             "n": st.integers(2, 6), "gen": st.booleans(), "seedmask": st.sampled_from([[1, 1], [1, 0], [0, 1]]),
-            "hint": st.sampled_from([None, None, "true"]), "partial_modes": st.booleans(), "forder": st.booleans(),
+            "hint": st.sampled_from([None, None, "true"]), "partial_modes": st.sampled_from([False, True, "entry"]), "forder": st.booleans(),
         })
 
     @staticmethod
@@ -929,12 +938,31 @@ class EigDenseR:
                 out[0] = w
             if mask[1]:
                 q = like(r, Q)
-                if pm:
+                if pm == "entry" and n >= 2:
+                    # a response on one component of one mode shape: a single non-zero entry Q[j, i], j != i (and no
+                    # eigenvalue seed for mode i). Successive calls chain the positions, (j, i) then (i, k), so that a
+                    # combination of two such seeds has another sparsity pattern than its parts
+                    if entry_hist:
+                        j = entry_hist[-1][1]                          # row = column of the previous seed
+                        i = int((j + 1 + r.integers(0, n - 1)) % n)    # any other column
+                    else:
+                        i = int(r.integers(0, n))
+                        j = int((i + 1 + r.integers(0, n - 1)) % n)
+                    entry_hist.append((j, i))
+                    keep = q[j, i]
+                    q[...] = 0
+                    q[j, i] = keep
+                    if out[0] is not None:
+                        out[0][i] = 0
+                elif pm:
                     q[:, 1::2] = 0
                 out[1] = q
             return out
+        entry_hist = []
         lab = ["eigdense", f"eig:{kind}", "generalized" if o["gen"] else "standard",
                "seed:" + "".join(map(str, mask))] + (["fortran_order"] if o.get("forder") else [])
+        if pm == "entry" and mask[1]:
+            lab.append("single_entry_eigenvector_seed")
         return Built(mod, mod.sig_in, mod.sig_out, vdirs, seeds, linear=False, h=1e-3, labels=lab, tol=1e-6)
 
 
